@@ -175,7 +175,6 @@ func RandomInstance(r *gen.R, t *Truth) *Instance {
 	mode := weighted(r, 10, 10, 80) // all closed | every edge | per ring at random
 	pRev := []float64{0, 1, 0.5}[weighted(r, 10, 10, 80)]
 	cuts := make([][]RingCut, len(t.Polys))
-	nv, np := 0, 0
 	for pi := range t.Polys {
 		p := &t.Polys[pi]
 		for k := 0; k < p.NRings(); k++ {
@@ -187,10 +186,20 @@ func RandomInstance(r *gen.R, t *Truth) *Instance {
 			case 2:
 				class = "c2ma"[r.Intn(4)]
 			}
-			rc := randomCut(r, n, class, pRev)
-			cuts[pi] = append(cuts[pi], rc)
-			nv += n
-			np += len(rc.Cuts)
+			cuts[pi] = append(cuts[pi], randomCut(r, n, class, pRev))
+		}
+	}
+	return finishInstance(r, t, cuts)
+}
+
+// finishInstance numbers nodes and ways, shuffles members, ways and nodes and picks the
+// relation type, tags and the optional node member for the given cut plan.
+func finishInstance(r *gen.R, t *Truth, cuts [][]RingCut) *Instance {
+	nv, np := 0, 0
+	for pi := range t.Polys {
+		for k := 0; k < t.Polys[pi].NRings(); k++ {
+			nv += len(t.Polys[pi].Ring(k))
+			np += len(cuts[pi][k].Cuts)
 		}
 	}
 	nid := distinctIDs(r, nv+1)
